@@ -385,3 +385,132 @@ theorem relief_progress (swr : Swr) (sc : Sched) (inp : Input)
     exact this
 
 end Kvass.Coord
+
+namespace Kvass.Coord
+open Kvass Kvass.Spec
+
+/-! ### relief reaches its goal: the settled load left on the shard -/
+
+def wProc (tar : St) : Int := if Gen.loadSkipProc tar then 0 else tar.total
+
+theorem loadProc_eq (s : SI) : loadProc s = (s.scraping.map fun p => wProc p.2).sum := rfl
+
+/-- replacing the entry of `h` changes the sum by the difference of the two weights -/
+theorem sum_set_existing (w : St → Int) : ∀ (m : AL St) (h : Hash) (tar tar' : St), m.get h = some tar →
+    ((m.set h tar').map fun p => w p.2).sum = (m.map fun p => w p.2).sum - w tar + w tar' := by
+  intro m
+  induction m with
+  | nil => intro h tar tar' hg; simp [AL.get] at hg
+  | cons e m ih =>
+    intro h tar tar' hg
+    obtain ⟨k, x⟩ := e
+    rw [AL.get_cons] at hg
+    by_cases hk : k = h
+    · simp only [hk, if_true, Option.some.injEq] at hg
+      subst hg
+      simp only [AL.set, hk, if_true, List.map_cons, List.sum_cons]
+      omega
+    · simp only [hk, if_false] at hg
+      have := ih h tar tar' hg
+      simp only [AL.set, hk, if_false, List.map_cons, List.sum_cons]
+      omega
+
+/-- along the relief loop the running total is the settled load still on the shard -/
+theorem apLoop_total (o : Opt) (i : Nat) (exp : Int) :
+    ∀ (hs : List Hash) (c : CS) (total : Int) (s : SI), c.shards[i]? = some s → total = loadProc s →
+      (apLoop o i exp hs c total).2.2 = false →
+      ∃ s', (apLoop o i exp hs c total).1.shards[i]? = some s' ∧ (apLoop o i exp hs c total).2.1 = loadProc s' := by
+  intro hs
+  induction hs with
+  | nil => intro c total s hs ht _; exact ⟨s, by simpa [apLoop] using hs, by simpa [apLoop] using ht⟩
+  | cons h hs ih =>
+    intro c total s hsi ht hna
+    unfold apLoop at hna ⊢
+    split
+    · exact ⟨s, hsi, ht⟩
+    · rename_i hbr
+      simp only [hbr, Bool.false_eq_true, if_false] at hna
+      rw [hsi] at hna ⊢
+      simp only at hna ⊢
+      split
+      · rename_i hnone
+        simp only [hnone] at hna
+        exact ih c total s hsi ht hna
+      · rename_i tar htar
+        simp only [htar] at hna
+        split
+        · rename_i hskip
+          simp only [hskip, if_true] at hna
+          exact ih c total s hsi ht hna
+        · rename_i hskip
+          simp only [hskip, Bool.false_eq_true, if_false] at hna
+          split
+          · rename_i hbig
+            simp only [hbig, if_true] at hna
+            cases hna
+          · rename_i hbig
+            simp only [hbig, Bool.false_eq_true, if_false] at hna
+            split
+            · rename_i j hj
+              simp only [hj] at hna
+              obtain ⟨t, htj, _, hji, _⟩ := firstDst_spec hj
+              have hsrc : (transfer 1 c i j h).shards[i]? = some (tSrc s h tar) := by
+                rw [transfer_shard_at hsi htj htar hji]; simp
+              apply ih (transfer 1 c i j h) (Gen.apSub total tar) (tSrc s h tar) hsrc _ hna
+              -- the moved target was counted with its total series, and counts for nothing in transfer
+              rw [loadProc_eq] at ht
+              rw [loadProc_eq]
+              unfold tSrc
+              simp only
+              rw [sum_set_existing wProc s.scraping h tar { tar with state := .inTransfer } htar]
+              have h1 : wProc tar = tar.total := by
+                unfold wProc
+                have : Gen.loadSkipProc tar = false := by
+                  have hs' : Gen.apSkip tar = false := by simpa using hskip
+                  unfold Gen.apSkip at hs'
+                  unfold Gen.loadSkipProc
+                  simp only [Bool.or_eq_false_iff] at hs' ⊢
+                  exact ⟨⟨hs'.1.1.2, hs'.1.2⟩, hs'.2⟩
+                rw [this]; rfl
+              have h2 : wProc { tar with state := .inTransfer } = 0 := by
+                unfold wProc Gen.loadSkipProc; simp
+              rw [h1, h2, ht]
+              unfold Gen.apSub; omega
+            · rename_i hnj
+              simp only [hnj] at hna
+              exact ih c total s hsi ht hna
+
+/-- **relief reaches its goal on the shard it works on**: after `alleviateShardProcessSeries` the
+    loop was aborted by a settled target that alone exceeds the limit, or space is requested, or the
+    settled load left on the shard is at most the expected one. -/
+theorem allevProcShard_goal (o : Opt) (exp : Int) (order : List Hash) (c : CS) (i : Nat) (s : SI)
+    (hs : c.shards[i]? = some s) (hnb : NB o c i) :
+    0 < (allevProcShard o exp order c i).2 ∨
+    ∃ s', (allevProcShard o exp order c i).1.shards[i]? = some s' ∧ loadProc s' ≤ exp := by
+  unfold allevProcShard
+  rw [hs]
+  simp only
+  split
+  · rename_i hdone
+    right
+    exact ⟨s, hs, by simpa [Gen.apDone] using hdone⟩
+  · have hna := apLoop_not_aborted o i exp order c (loadProc s) hnb
+    have htot := apLoop_total o i exp order c (loadProc s) s hs rfl hna
+    generalize apLoop o i exp order c (loadProc s) = r at hna htot
+    obtain ⟨c', total', ab⟩ := r
+    simp only at hna htot ⊢
+    subst hna
+    simp only [Bool.false_eq_true, if_false]
+    obtain ⟨s', hs', ht'⟩ := htot
+    split
+    · rename_i hneed
+      left
+      have : total' > exp := by simpa [Gen.apNeed] using hneed
+      unfold Gen.apAmount; omega
+    · rename_i hneed
+      right
+      refine ⟨s', hs', ?_⟩
+      have : ¬ total' > exp := by simpa [Gen.apNeed] using hneed
+      omega
+
+end Kvass.Coord
